@@ -58,11 +58,21 @@ def generate(rng, tier, n):
     while len(cases) < n:
         c = rng.random()
         forced_threads = None
+        long_budgets = None
         if len(cases) < 2:
             # the same player moves twice at the top, solved with several threads (frontier through two own decisions)
             from ..solvers import double_move_tree
             t, st = double_move_tree(rng, swap=len(cases) == 1)
             forced_threads = [4, 2][len(cases)]
+        elif len(cases) == 2:
+            # an infoset with more actions than any fixed-size scratch buffer
+            from ..solvers import needle_tree
+            t, st = needle_tree(rng, rng.choice([34, 40, 70]), pl=rng.choice([1, 2]))
+        elif len(cases) == 3:
+            # a budget beyond 2^16 iterations on a game with a properly mixed equilibrium
+            from ..solvers import biased_rps_tree
+            t, st = biased_rps_tree(rng)
+            long_budgets = [65537 + rng.randrange(0, 12), 70000]
         elif c < 0.12:
             t, st = blind_guess_tree(rng)
         elif c < 0.25:
@@ -96,7 +106,7 @@ def generate(rng, tier, n):
                 unit = 2.0 ** -1040
         cb = CaseBuilder(cid, t, {"stats": st, "preset": preset, "threads": threads, "unit": unit})
         cb.meta["runs"] = []
-        for T in (BUDGETS if tier == "thorough" else rng.sample(BUDGETS[:6], 3) + rng.sample(BUDGETS[6:], 1)):
+        for T in ((BUDGETS if tier == "thorough" else rng.sample(BUDGETS[:6], 3) + rng.sample(BUDGETS[6:], 1)) + (long_budgets or [])):
             long_ = T > 100     # rounding is amplified over long runs: the model is compared up to T = 100 only
             s = cb.solve("full", T, 0.0, threads, preset, kind="solve_long" if long_ else "solve")
             cb.info(s, kind="info_long" if long_ else "info")
